@@ -146,8 +146,9 @@ def run(ctx, rep):
         for b, B, bi, t, cls, ordr in st:
             if cls not in (model.ATOMIC_RMW_ADD, model.ATOMIC_RMW_SUB):
                 continue
-            imp = b.get("impl") or {}
-            hn = F.handle_name(imp["self_ty"]) if imp else None
+            from . import c01
+
+            hn, _tr = c01._owner_handle(F, b)  # the impl the site sits in, or the common owner of a private helper's callers
             ik = "%s/%s" % (b["key"], cls)
             if hn == "Arc":
                 rep.ok("R-FUNNEL", ik, cfg=tag)
